@@ -71,7 +71,7 @@ theorem IInv.visit_data {g : Graph} {results : List Key} {P : Params α} {s : In
       · exact ⟨Or.inr h1, h2⟩
       · exact ⟨Or.inl h1, h1 ▸ hkd⟩
   refine ⟨s', hs', ?_, ?_⟩
-  · refine ⟨?_, ?_, ?_, ?_, ?_, ?_, ?_, ?_, ?_, ?_, ?_, ?_, hRN, ?_, ?_, ?_, ?_⟩
+  · refine ⟨?_, ?_, ?_, ?_, ?_, ?_, ?_, ?_, ?_, ?_, ?_, ?_, hRN, ?_, ?_, ?_, ?_, ?_⟩
     · intro k hk; rw [e1] at hk; exact h.stackGraph k (by rw [hst]; exact List.mem_cons_of_mem _ hk)
     · intro k hk
       rcases (hseen' k).mp hk with rfl | h1
@@ -279,6 +279,14 @@ theorem IInv.visit_data {g : Graph} {results : List Key} {P : Params α} {s : In
       · rcases h.dtsLive d l hl with h1 | h1
         · exact Or.inl (Or.inr h1)
         · exact Or.inr h1
+    · -- reach
+      intro k hk
+      apply h.reach k
+      rw [hseen', e1] at hk
+      rcases hk with (rfl | h1) | h1
+      · exact Or.inr (by rw [hst]; simp)
+      · exact Or.inl h1
+      · exact Or.inr (by rw [hst]; exact List.mem_cons_of_mem _ h1)
   · unfold measure
     rw [e1, e2, hst]
     have := remSum_cons_le g s.seen key
